@@ -7,6 +7,7 @@ from mirsym import engine as E
 from mirsym import summaries as S
 from mirsym.engine import Agg, Ref, mk_enum, is_sym
 from . import common as C
+from . import contracts as K
 
 PROP = 'C01'
 
@@ -15,6 +16,19 @@ RHS_TYPES = LHS_TYPES
 
 OPS = [('Add', 'add', '+'), ('Sub', 'sub', '-'), ('Mul', 'mul', '*')]
 ASSIGN_OPS = [('AddAssign', 'add_assign', '+'), ('SubAssign', 'sub_assign', '-'), ('MulAssign', 'mul_assign', '*')]
+
+UNARY = [
+    # name, call path, arg type, replay name, semantics
+    ('neg', '<BigDecimal as std::ops::Neg>::neg', 'BigDecimal', 'neg'),
+    ('neg_ref', '<&BigDecimal as std::ops::Neg>::neg', '&BigDecimal', 'neg_ref'),
+    ('neg_decref', '<BigDecimalRef as std::ops::Neg>::neg', "BigDecimalRef<'_>", 'neg_decref'),
+    ('abs', 'BigDecimal::abs', '&BigDecimal', 'abs'),
+    ('signed_abs', '<BigDecimal as num_traits::Signed>::abs', '&BigDecimal', 'signed_abs'),
+    ('double', 'BigDecimal::double', '&BigDecimal', 'double'),
+    ('half', 'BigDecimal::half', '&BigDecimal', 'half'),
+    ('square', 'BigDecimal::square', '&BigDecimal', 'square'),
+    ('cube', 'BigDecimal::cube', '&BigDecimal', 'cube'),
+]
 
 
 def overloads(prog):
@@ -33,90 +47,270 @@ def overloads(prog):
 def gaps_for(tier, seed_rng):
     mandatory = list(range(0, 46)) + [589, 590, 591]
     if tier == 'quick':
-        extra = sorted(seed_rng.sample(range(46, 10001), 2))
-        return mandatory + extra
+        return mandatory + sorted(seed_rng.sample(range(46, 10001), 2))
     extra = [1000, 4999, 5000, 9999, 10000] + sorted(seed_rng.sample(range(46, 10001), 50))
     return sorted(set(list(range(0, 601)) + extra))
 
 
-def run_binop(prog, ov, ga, gb, s0_symbolic, mul_scales=None):
-    """explore one overload with a = x@(s0+ga), b = y@(s0+gb)"""
+# ---------------------------------------------------------------------------------------------- execution
+
+def call_binop(m, ov, x, sa, y, sb):
+    a = C.make_operand(m, ov['lhs'], x, sa)
+    b = C.make_operand(m, ov['rhs'], y, sb)
+    r = m.call(ov['path'], [a, b], [ov['lhs'], ov['rhs']], '()' if ov['assign'] else 'BigDecimal')
+    if ov['assign']:
+        r = a.get()
+    return r.fields[0], r.fields[1]
+
+
+def exact_binop(op, x, ra, y, rb):
+    """-> (numerator, scale) of the exact result with python/z3 ints; scales ra, rb are python ints"""
+    if op == '*':
+        return x * y, ra + rb
+    M = max(ra, rb)
+    xs, ys = x * 10 ** (M - ra), y * 10 ** (M - rb)
+    return (xs + ys if op == '+' else xs - ys), M
+
+
+def same_value(ri, rd, en, ed):
+    """ri*10^-rd == en*10^-ed  with concrete rd, ed"""
+    M = max(rd, ed)
+    return ri * 10 ** (M - rd) == en * 10 ** (M - ed)
+
+
+def run_binop(ov, ga, gb, s0_symbolic, bound_bits=None):
     x, y, s0v = z3.Ints('x y s0')
 
     def run(m):
         m.witness = {'x': x, 'y': y, 's0': s0v if s0_symbolic else 0}
+        s0 = s0v if s0_symbolic else 0
         if s0_symbolic:
-            s0 = s0v
             m.assume(z3.And(s0 >= -C.SCALE_BOUND, s0 <= C.SCALE_BOUND))
-        else:
-            s0 = 0
         lk, rk = C.kind_of(ov['lhs']), C.kind_of(ov['rhs'])
-        sa = s0 + ga if lk == 'dec' else 0
-        sb = s0 + gb if rk == 'dec' else 0
-        C.assume_range(m, ov['lhs'], x)
-        C.assume_range(m, ov['rhs'], y)
-        a = C.make_operand(m, ov['lhs'], x, sa)
-        b = C.make_operand(m, ov['rhs'], y, sb)
-        lt = ov['lhs']
-        r = m.call(ov['path'], [a, b], [lt, ov['rhs']], '()' if ov['assign'] else 'BigDecimal')
-        if ov['assign']:
-            r = a.get()
-        ri, rs = r.fields
-        # scales relative to s0 (python ints)
         ra = ga if lk == 'dec' else 0
         rb = gb if rk == 'dec' else 0
-        if ov['op'] == '*':
-            base = (sa + sb)
-            d = m.concretize(rs - base)       # result scale relative to sa+sb
-            # ri * 10^-(base+d) == x*y*10^-base   <=>  ri == x*y*10^d (d>=0)  or ri*10^-d == x*y
-            if d >= 0:
-                wrong = ri != x * y * 10 ** d
-            else:
-                wrong = ri * 10 ** (-d) != x * y
-            return [('product value', wrong)]
-        d = m.concretize(rs - s0)
-        M = max(ra, rb, d)
-        lhsv = ri * 10 ** (M - d)
-        if ov['op'] == '+':
-            rhsv = x * 10 ** (M - ra) + y * 10 ** (M - rb)
-        else:
-            rhsv = x * 10 ** (M - ra) - y * 10 ** (M - rb)
-        return [('sum/difference value', lhsv != rhsv)]
+        C.assume_range(m, ov['lhs'], x)
+        C.assume_range(m, ov['rhs'], y)
+        if bound_bits:
+            m.assume(z3.And(x > -2 ** bound_bits, x < 2 ** bound_bits, y > -2 ** bound_bits, y < 2 ** bound_bits))
+        ri, rs = call_binop(m, ov, x, (s0 + ra) if lk == 'dec' else 0, y, (s0 + rb) if rk == 'dec' else 0)
+        en, ed = exact_binop(ov['op'], x, ra, y, rb)
+        base = 2 * s0 if (ov['op'] == '*' and lk == 'dec' and rk == 'dec') else s0
+        rd = m.concretize(rs - base)
+        if abs(rd) > 30000:
+            raise E.BoundExceeded('result scale offset %d' % rd)
+        return [('exact value of %s' % ov['op'], z3.Not(same_value(ri, rd, en, ed)))]
+    return run
+
+
+def run_unary(name, path, ty, s_conc=None, bound_bits=None):
+    x, s0v = z3.Ints('x s0')
+
+    def run(m):
+        s0 = s0v if s_conc is None else s_conc
+        m.witness = {'x': x, 's0': s0}
+        if s_conc is None:
+            m.assume(z3.And(s0 >= -C.SCALE_BOUND, s0 <= C.SCALE_BOUND))
+        if bound_bits:
+            m.assume(z3.And(x > -2 ** bound_bits, x < 2 ** bound_bits))
+        a = C.make_operand(m, ty, x, s0)
+        r = m.call(path, [a], [ty], 'BigDecimal')
+        ri, rs = C.dec_fields(r)
+        if name in ('square', 'cube'):
+            k = 2 if name == 'square' else 3
+            rd = m.concretize(rs)
+            en = x * x if k == 2 else x * x * x
+            return [('exact power', z3.Not(same_value(ri, rd, en, k * s0)))]
+        rd = m.concretize(rs - s0)
+        if name.startswith('neg'):
+            return [('negation', z3.Not(same_value(ri, rd, -x, 0)))]
+        if name in ('abs', 'signed_abs'):
+            return [('absolute value', z3.Not(same_value(ri, rd, z3.If(x >= 0, x, -x), 0)))]
+        if name == 'double':
+            return [('double', z3.Not(same_value(ri, rd, 2 * x, 0)))]
+        if name == 'half':
+            return [('half', z3.Not(same_value(2 * ri, rd, x, 0)))]
+        raise AssertionError(name)
     return run
 
 
 def worker(params):
     prog = H.get_program()
-    ov = params['ov']
     S.DIGIT_BOUND[0] = params.get('D', 40)
-    S.BITS_MODE[:] = ['uf', 128]
-    res = H.explore_task(prog, run_binop(prog, ov, params['ga'], params['gb'], params['s0sym']), task=params,
-                         loop_bound=params.get('loop', 700), timeout_ms=60000)
-    return res
+    S.WORD_BOUND[0] = 4
+    S.BITS_MODE[:] = ['table', 128] if params.get('real_eq') else ['uf', 128]
+    kind = params['kind']
+    saved = list(E.DEFAULT_OVERRIDES)
+    try:
+        if params.get('contracts'):
+            E.DEFAULT_OVERRIDES[:] = K.EQ_CONTRACTS + K.NORMALIZED_CONTRACTS
+        if kind == 'binop':
+            run = run_binop(params['ov'], params['ga'], params['gb'], params['s0sym'], params.get('bits'))
+        else:
+            run = run_unary(params['name'], params['path'], params['ty'], params.get('s'), params.get('bits'))
+        return H.explore_task(prog, run, task=params, loop_bound=params.get('loop', 800), timeout_ms=60000, deadline_s=600)
+    finally:
+        E.DEFAULT_OVERRIDES[:] = saved
+
+
+# ---------------------------------------------------------------------------------------------- replay
+
+def native_binop(ov, x, sa, y, sb, profile='release'):
+    lk, rk = C.kind_of(ov['lhs']), C.kind_of(ov['rhs'])
+    l = H.dec_str(x, sa) if lk == 'dec' else str(x)
+    r = H.dec_str(y, sb) if rk == 'dec' else str(y)
+    line = '\t'.join(['binop', ov['trait'], C.norm_ty(ov['lhs']), C.norm_ty(ov['rhs']), l, r])
+    return H.replay_lines([line], profile)[0]
+
+
+def confirm(v):
+    """replay a solver model natively; returns (confirmed, native_output)"""
+    t, mdl = v['task'], v['model']
+    if mdl is None:
+        return False, 'no model'
+    if t['kind'] == 'binop':
+        ov = t['ov']
+        lk, rk = C.kind_of(ov['lhs']), C.kind_of(ov['rhs'])
+        s0 = mdl.get('s0', 0)
+        ra = t['ga'] if lk == 'dec' else 0
+        rb = t['gb'] if rk == 'dec' else 0
+        out = native_binop(ov, mdl['x'], s0 + ra if lk == 'dec' else 0, mdl['y'], s0 + rb if rk == 'dec' else 0)
+        if out.startswith('PANIC') or out.startswith('UNKNOWN'):
+            return out.startswith('PANIC'), out
+        ri, rs = H.parse_dec(out)
+        en, ed = exact_binop(ov['op'], mdl['x'], s0 + ra if lk == 'dec' else 0, mdl['y'], s0 + rb if rk == 'dec' else 0)
+        return (not same_value(ri, rs, en, ed)), out
+    name = t['name']
+    x, s0 = mdl['x'], mdl['s0']
+    rname = [u for u in UNARY if u[0] == name][0][3]
+    out = H.replay_lines(['unop\t%s\t%s' % (rname, H.dec_str(x, s0))])[0]
+    if out.startswith('PANIC'):
+        return True, out
+    ri, rs = H.parse_dec(out)
+    exp = {'neg': (-x, s0), 'neg_ref': (-x, s0), 'neg_decref': (-x, s0), 'abs': (abs(x), s0), 'signed_abs': (abs(x), s0),
+           'double': (2 * x, s0), 'square': (x * x, 2 * s0), 'cube': (x ** 3, 3 * s0)}
+    if name == 'half':
+        return (not same_value(2 * ri, rs, x, s0)), out
+    en, ed = exp[name]
+    return (not same_value(ri, rs, en, ed)), out
+
+
+def validate(prog, ovs, rng, n):
+    """translator validation: concrete inputs through the MIR executor and through the native crate, bit for bit"""
+    cases = []
+    vals = [0, 1, -1, 2, -2, 10, 100, 7, -7, 99, 12345, -98765, 10 ** 19, 10 ** 20 - 1, -(10 ** 25), 2 ** 64, 2 ** 63 - 1]
+    for i in range(n):
+        ov = rng.choice(ovs)
+        lk, rk = C.kind_of(ov['lhs']), C.kind_of(ov['rhs'])
+
+        def pick(k):
+            if k.startswith('int:'):
+                lo, hi = E.INT_RANGE[k[4:]]
+                return rng.choice([lo, hi, 0, 1, min(hi, 2), max(lo, -1), max(lo, -2), rng.randint(lo, hi)])
+            return rng.choice(vals + [rng.randint(-10 ** 30, 10 ** 30)])
+        x, y = pick(lk), pick(rk)
+        sa = rng.choice([0, 0, 1, 2, 5, -3, 19, 20, 21, 30, -25]) if lk == 'dec' else 0
+        sb = rng.choice([0, 0, 1, 2, 5, -3, 19, 20, 21, 30, -25]) if rk == 'dec' else 0
+        cases.append((ov, x, sa, y, sb))
+    lines = []
+    for ov, x, sa, y, sb in cases:
+        lk, rk = C.kind_of(ov['lhs']), C.kind_of(ov['rhs'])
+        lines.append('\t'.join(['binop', ov['trait'], C.norm_ty(ov['lhs']), C.norm_ty(ov['rhs']),
+                                H.dec_str(x, sa) if lk == 'dec' else str(x), H.dec_str(y, sb) if rk == 'dec' else str(y)]))
+    native = H.replay_lines(lines)
+    mismatches = []
+    S.DIGIT_BOUND[0] = 80
+    S.WORD_BOUND[0] = 8
+    for (ov, x, sa, y, sb), nat in zip(cases, native):
+        stats = E.Stats()
+        m = E.Machine(prog, (), [], stats, loop_bound=2000)
+        try:
+            ri, rs = call_binop(m, ov, x, sa, y, sb)
+            mine = H.dec_str(ri, rs)
+        except E.Panic as p:
+            mine = 'PANIC'
+        except E.PathEnd as e:
+            mine = 'ENGINE:%s' % e
+        if mine != nat and not (mine == 'PANIC' and nat.startswith('PANIC')):
+            mismatches.append({'overload': ov['path'], 'inputs': [x, sa, y, sb], 'mirsym': mine, 'native': nat})
+    return len(cases), mismatches
+
+
+# ---------------------------------------------------------------------------------------------- main
+
+def build_tasks(prog, tier, rng):
+    ovs = overloads(prog)
+    gaps = gaps_for(tier, rng)
+    tasks = []
+    for ov in ovs:
+        lk, rk = C.kind_of(ov['lhs']), C.kind_of(ov['rhs'])
+        both = lk == 'dec' and rk == 'dec'
+        if ov['op'] == '*':
+            scales = [(0, 0), (0, 2), (3, 0), (-2, 1), (1, -4), (45, 45), (-45, 20)]
+            if tier == 'thorough':
+                scales += [(a, b) for a in (-7, 1, 19, 20) for b in (-20, 0, 6, 21)]
+            for (ga, gb) in scales:
+                if not both and lk == 'dec':
+                    gb = ga
+                if not both and rk == 'dec':
+                    ga = gb
+                # (i) real equality / normalized bodies, operands < 2^128
+                tasks.append({'kind': 'binop', 'ov': ov, 'ga': ga, 'gb': gb, 's0sym': False, 'bits': 64 if tier == 'thorough' else 32, 'real_eq': True, 'D': 40})
+                # (ii) verified contracts for == and normalized, operands unbounded
+                tasks.append({'kind': 'binop', 'ov': ov, 'ga': ga, 'gb': gb, 's0sym': False, 'contracts': True})
+            continue
+        for g in gaps:
+            if both:
+                tasks.append({'kind': 'binop', 'ov': ov, 'ga': 0, 'gb': g, 's0sym': True})
+                if g:
+                    tasks.append({'kind': 'binop', 'ov': ov, 'ga': g, 'gb': 0, 's0sym': True})
+            else:
+                tasks.append({'kind': 'binop', 'ov': ov, 'ga': g, 'gb': g, 's0sym': False})
+                if g:
+                    tasks.append({'kind': 'binop', 'ov': ov, 'ga': -g, 'gb': -g, 's0sym': False})
+    for name, path, ty, rname in UNARY:
+        if name in ('square', 'cube'):
+            for sc in [-3, 0, 1, 2, 7] + ([19, 20, 45, -45] if tier == 'thorough' else []):
+                tasks.append({'kind': 'unary', 'name': name, 'path': path, 'ty': ty, 's': sc, 'contracts': True})
+                tasks.append({'kind': 'unary', 'name': name, 'path': path, 'ty': ty, 's': sc, 'bits': 64 if tier == 'thorough' else 32, 'real_eq': True})
+        else:
+            tasks.append({'kind': 'unary', 'name': name, 'path': path, 'ty': ty})
+    return ovs, gaps, tasks
 
 
 def main(tier):
     rep = H.Report(PROP, tier)
     prog = H.get_program()
-    ovs = overloads(prog)
     rng = H.rng(PROP)
-    gaps = gaps_for(tier, rng)
-    tasks = []
-    for ov in ovs:
-        both_dec = C.kind_of(ov['lhs']) == 'dec' and C.kind_of(ov['rhs']) == 'dec'
-        if ov['op'] == '*':
-            continue
-        for g in gaps:
-            if both_dec:
-                tasks.append({'ov': ov, 'ga': 0, 'gb': g, 's0sym': True})
-                if g:
-                    tasks.append({'ov': ov, 'ga': g, 'gb': 0, 's0sym': True})
-            else:
-                # the non-decimal operand has scale 0: the decimal's scale is +-g
-                tasks.append({'ov': ov, 'ga': g, 'gb': g, 's0sym': False})
-                if g:
-                    tasks.append({'ov': ov, 'ga': -g, 'gb': -g, 's0sym': False})
-    rep.bounds = {'overloads': len(ovs), 'gaps': gaps, 'x,y': 'unbounded integers (SMT Int)', 's0': '|s0| <= 2^60, symbolic'}
+    ovs, gaps, tasks = build_tasks(prog, tier, rng)
+    rep.bounds = {'overloads_discovered_in_dump': len(ovs), 'scale_gaps': gaps,
+                  'x,y': 'unbounded integers (SMT Int) for add/sub/neg/abs/double/half and for mul under the ==/normalized contracts; |x|,|y| < 2^128 where the real == / normalized bodies are executed',
+                  's0': 'symbolic, |s0| <= 2^60 (decimal x decimal add/sub); concrete scales for mixed and mul forms'}
+    rep.assumptions = ['num-bigint arithmetic is exact (BigInt = mathematical integer)',
+                       'contracts substituted in run (ii) of Mul/square/cube: BigDecimal == is numeric equality (C02), normalized() keeps the value (C18)',
+                       'normalized() contract restricted to <= %d trailing zeros' % K.NORMALIZED_MAX_TRAILING_ZEROS]
+    rep.outside = ['|scale| > 2^60', 'scale gaps not listed in bounds.scale_gaps', 'Sum over iterators (covered by C19 inductive step)']
     sys.stderr.write('[C01] %d overloads, %d tasks\n' % (len(ovs), len(tasks)))
-    rep.add(H.run_parallel(tasks, worker, progress=500))
+    n, mism = validate(prog, ovs, rng, 300 if tier == 'quick' else 3000)
+    rep.validated = n
+    rep.validation_mismatches = mism
+    results = H.run_parallel(tasks, worker, progress=2000)
+    rep.add(results)
+    for r in results:
+        for v in r['violations']:
+            ok, out = confirm(v)
+            v['native'] = out
+            if ok:
+                v['replay_file'] = H.write_replay_file(PROP, v)
+                rep.confirmed.append(v)
+            else:
+                rep.unconfirmed.append(v)
     return rep.finish()
+
+
+def replay(path):
+    import json
+    v = json.load(open(path))
+    ok, out = confirm(v)
+    print('replay %s -> native %s ; violation reproduced: %s' % (path, out, ok))
+    return 1 if ok else 0
